@@ -144,6 +144,9 @@ func ArgsOf(cfg Config, i int, op Op) WriteArgs {
 // OpusMixConfig is the TOC config of packet k of a mixed write.
 func OpusMixConfig(base, k int) int { return (base + 5*k) % 32 }
 
+// OpusPacketTicks is the duration (48 kHz ticks) of a packet with the given TOC config and frame count code.
+func OpusPacketTicks(config, frames int) int64 { return opusDuration(OpusPacket(config, frames, nil)) }
+
 // ---- model -----------------------------------------------------------------------------------
 
 // MUnit is a unit the model expects to find in the muxer's output.
